@@ -298,7 +298,7 @@ PROPS["C06"] = dict(
 )
 
 PROPS["C08"] = dict(
-    suites=["c08", "c08c"],
+    suites=["c08", "c08c", "c08d"],
     lean_modules=["ServlinVerif.Props.C06", "ServlinVerif.Props.C05"],
     audit="Audit/C08.lean",
     rule="7 response families (Vec, empty, static str, File, TempFile, event stream with 2 events, empty event stream) x write error injected at "
@@ -368,7 +368,7 @@ PROPS["C17"] = dict(
 )
 
 PROPS["C05"] = dict(
-    suites=["c05"],
+    suites=["c05", "c08c", "c08d"],
     lean_modules=["ServlinVerif.Props.C05"],
     audit="Audit/C05.lean",
     rule="a real HttpConn on a loopback socket whose client pre-wrote its script and half-closed: ALL operation sequences up to depth 3 (4 in "
